@@ -16,7 +16,8 @@ Enumerated completely:
     centered_intensities);
   * input dtype {float16 (incl. pattern totals beyond the float16 range), float32, float64, uint8, uint16, int32, int64, bool}
     x memory layout {C, Fortran, transposed view, strided slice} of the 4-D stack x both classes x both dataset paths x every
-    batch size, against the same float64 weighted mean of the stored values (a dtype the library rejects on HEAD is counted);
+    batch size, against the same float64 weighted mean of the stored values, and shift_origin_to of the same stack against
+    np.roll (complex64, rejected on HEAD, is counted; any other rejected dtype or layout fails);
   * call histories: every single call / ordered pair (thorough: triple) of calculate_origin, shift_origin_to (corner and
     other targets), fit_origin_background and preprocess on models sharing a detector shape, modules re-imported before each
     history, the LAST call judged ("a result must not depend on earlier calls"), inputs bit-identical afterwards.
@@ -61,7 +62,7 @@ RULE = (
     "actually splits the set or the row and column centres differ by > 0.05 px (a swap would show); a shift point when the roll is "
     "not the identity; distinct = distinct (configuration, batch size, path). Shift parts also on detectors {13,16,17,26}x{8,13} "
     "both ways (scan (2,3)); shift_array: every integer shift x 2 branches; integer-origin roll: scans x detectors x 3 origin/fit "
-    "kinds x both classes x (vectorized, bilinear); call histories: all singles and ordered pairs (thorough: triples) over 20 calls; input dtype (8, two count levels) x layout (4) "
+    "kinds x both classes x (vectorized, bilinear); call histories: all singles and ordered pairs (thorough: triples) over 20 calls; input dtype (8, three count levels) x layout (4) "
     "x 2 scans x 2 detectors x all paths and batch sizes."
 )
 
@@ -898,16 +899,17 @@ def eval_history(item, seed=0, depth=2):
 # transposed-view or strided-slice layout, is judged against the same float64 weighted mean of the stored values, through both
 # classes, both dataset paths and every batch size. Every dtype below is accepted by both constructors on HEAD and delivered
 # with float32 precision (worst observed 1.1e-7 px over the whole part); the seeded half-precision accumulation gives 1.5e-3 px
-# at low counts (centre of mass 0 once a pattern total exceeds 65504) -> bound 2e-5 px (>= 20 x HEAD, <= 1/20 of the effect).
+# at low counts (measured with the 'mid' member: 9.6e-4 .. 1.5e-3 px; centre of mass 0 once a pattern total exceeds 65504) -> bound
+# 2e-5 px (175 x HEAD's worst, 1/48 of the smallest effect).
 TOL_DTYPE = 2e-5
 DTYPES = ["float16", "float32", "float64", "uint8", "uint16", "int32", "int64", "bool"]
 DTYPES_REJECTED_ON_HEAD = ["complex64"]  # counted, not flagged
 DTYPE_HIGH_SCALE = {"float16": 160, "float32": 160, "float64": 160, "uint8": 8, "uint16": 2000, "int32": 10000, "int64": 10000}
+DTYPE_MID_SCALE = {"uint8": 7}
 LAYOUTS = ["C", "F", "transposed_view", "strided_slice"]
-# On HEAD CenterOfMassOriginModel.calculate_origin raises RuntimeError ("view size is not compatible with input tensor's size and
-# stride") for Fortran-ordered and transposed-view stacks whenever the scan has two axes > 1 (it uses .view on the tensor that
-# shares the array's strides), for every dtype. Rejections on HEAD are counted, not flagged; when the call runs it is judged.
-LAYOUTS_REJECTED_ON_HEAD = {"CenterOfMassOriginModel.calculate_origin": ["F", "transposed_view"]}
+# Every layout must be accepted by both classes (a Fortran-ordered / transposed-view stack used to make the origin model raise:
+# .view on a tensor sharing the array's strides; repaired in /repo commit 83b0828). A path that raises on a non-C layout fails
+# as {"relation": "layout_accepted", "path", "layout"}; on the C layout as {"relation": "dtype_accepted", "path", "dtype"}.
 DT_SCANS = [(2, 3), (1, 5)]
 DT_DETS = [(6, 8), (7, 7)]
 
@@ -924,6 +926,10 @@ def dtype_data(scan, det, dtype, member):
     counts = 1 + 2 * kr + (kc * kc) % 7 + ((kr + 2 * kc + k) % 5) + k
     if member == "high":
         counts = counts * DTYPE_HIGH_SCALE.get(dtype, 160)
+    elif member == "mid":  # odd multiples: pattern totals of several thousand, beyond the range where float16 adds integers exactly
+        counts = counts * DTYPE_MID_SCALE.get(dtype, 13)
+        if dtype == "float16" and not np.all((counts.sum((-2, -1)) > 4096) & (counts.sum((-2, -1)) < 65504)):
+            raise Broken("dtype data builder: the float16 'mid' member must have pattern totals between 4096 and 65504")
     a = counts.astype(dtype)
     if not np.array_equal(a.astype(np.float64 if not np.iscomplexobj(a) else np.complex128).real, counts.astype(np.float64)):
         raise Broken(f"dtype data builder: counts are not exactly representable in {dtype} ({member})")
@@ -993,26 +999,46 @@ def dtype_case(case, verbose=False):
         except Broken:
             raise
         except Exception as e:
-            fails.append(({"relation": "dtype_accepted", "path": path, "dtype": dt}, dict(base, path=path, **(extra or {})), f"{path} {extra or ''} raised {type(e).__name__}: {str(e)[:200]} on a {dt} stack (layout {layout}); HEAD accepts this dtype"))
+            if layout == "C":
+                cls = {"relation": "dtype_accepted", "path": path, "dtype": dt}
+            else:
+                cls = {"relation": "layout_accepted", "path": path, "layout": layout}
+            fails.append((cls, dict(base, path=path, **(extra or {})), f"{path} {extra or ''} raised {type(e).__name__}: {str(e)[:200]} on a {dt} stack in layout {layout} (scan {scan} det {det}); a legal 4-D dataset must be accepted in any dtype of the alphabet and any memory layout"))
             return None
 
     res = {}
     om = attempt("CenterOfMassOriginModel.from_dataset", lambda: CenterOfMassOriginModel.from_dataset(mk()))
     if om is not None:
         for bs in batch_sizes(N):
-            if layout in LAYOUTS_REJECTED_ON_HEAD["CenterOfMassOriginModel.calculate_origin"]:
-                try:
-                    om.calculate_origin(bs)
-                except RuntimeError:
-                    points.append((["om_rejects_layout", bs], False))
-                    continue
-            elif attempt("CenterOfMassOriginModel.calculate_origin", lambda: (om.calculate_origin(bs), 1), {"batch_size": bs}) is None:
+            if attempt("CenterOfMassOriginModel.calculate_origin", lambda: (om.calculate_origin(bs), 1), {"batch_size": bs}) is None:
                 continue
             o = om.origin_measured.detach().cpu().numpy().astype(np.float64).reshape(*scan, 2)
             g = judge("CenterOfMassOriginModel.calculate_origin", o[..., 0], o[..., 1], {"batch_size": bs})
             if bs is None:
                 res["om"] = g
             points.append((["om", bs], True))
+        # the shift of the same stack: per-pattern integer origins, partial and full batches, both modes, against np.roll
+        kk = np.arange(N)
+        org = np.stack([(1 + kk) % H, (2 + 2 * kk) % W], -1)
+        flat = a64.reshape(N, H, W)
+        ref = np.stack([np.roll(flat[k], (-int(org[k, 0]), -int(org[k, 1])), axis=(0, 1)) for k in range(N)]).reshape(a64.shape)
+        for bs, mode in itertools.product((None, 4), ("bilinear", "nearest")):
+            pth = "CenterOfMassOriginModel.shift_origin_to"
+
+            def do_shift():
+                om.origin_fitted = torch.tensor(org, dtype=torch.float32)
+                om.shift_origin_to((0, 0), max_batch_size=bs, mode=mode)
+                return om.shifted_tensor.detach().cpu().numpy().astype(np.float64)
+
+            sh = attempt(pth, do_shift, {"batch_size": bs, "mode": mode})
+            if sh is None:
+                continue
+            d = float(np.max(np.abs(sh - ref))) / float(ref.max()) if sh.shape == ref.shape else float("inf")
+            if (mode == "nearest" and not (sh.shape == ref.shape and np.array_equal(sh, ref))) or not (d <= TOL_SHIFT):
+                fails.append(({"relation": "integer_origin_shift_equals_roll", "path": pth, "dtype": dt}, dict(base, path=pth, batch_size=bs, mode=mode), f"shift_origin_to((0,0), max_batch_size={bs}, mode={mode!r}) on a {dt} stack ({member} counts, layout {layout}, scan {scan} det {det}) differs from np.roll by {d:.3e} of the maximum"))
+            if verbose:
+                print(f"    {pth:42s} {str({'batch_size': bs, 'mode': mode}):38s} deviation {d:.3e}")
+            points.append((["om_shift", bs, mode], True))
     for vec in (True, False) if sm["preprocess_vectorized"] else (True,):
         path = f"preprocess(vectorized={vec}).com_measured"
         r = attempt(path, lambda: run_preprocess_from(arr, vec, sm))
@@ -1056,7 +1082,6 @@ def eval_dtype(case):
     for cls, sub, msg in fails:
         t.fail(cls, sub, msg)
     t.extra["dtype_configurations"] += 1
-    t.extra["origin_model_calls_rejecting_the_layout"] += sum(1 for k, _ in points if k[0] == "om_rejects_layout")
     t.extra[f"dtype_{case['dtype']}_{status}"] += 1
     if case["dtype"] == "float16" and case["member"] == "high" and case["layout"] == "strided_slice" and tuple(case["det"]) == (6, 8):
         t.sample({"dtype_configuration": key0, "paths_and_batch_sizes": len(points)}, cap=1)
@@ -1078,7 +1103,7 @@ def run(ctx):
         "preprocess is run with force_com_rotation=0, force_com_transpose=False, no plots, obj_padding_px=(8,8) (tiny problems need padding); these do not enter the centre of mass",
         "a plane through a scan with an axis of length 1 is not unique, but its values at the scan positions are; such scans stay in the lattice",
         "integer fitted origin -> roll: the origin model is judged with the fitted origins rounded to the integers they equal within 1e-4 (shift_origin_to is exact only for bit-exact integers: for an origin such as 2.99999 the wrapped row is interpolated against zero padding; counted in count_origin_model_unrounded_fitted_origin_loses_wrapped_pixels, not a verdict); the dataset model is judged with its own fitted origins",
-        "input dtype x layout: a dtype or layout that the library rejects on HEAD is counted, not flagged (complex64 by both classes; Fortran-ordered and transposed-view stacks by CenterOfMassOriginModel.calculate_origin when both scan axes are > 1: count_origin_model_calls_rejecting_the_layout); every other rejection is a failure (dtype_accepted)",
+        "input dtype x layout: complex64 is rejected by both classes on HEAD and is counted, not flagged; every other rejection of a dtype or memory layout of the alphabet is a failure (dtype_accepted / layout_accepted)",
         "a shift_origin_to call with a target other than the corner is outside the property and only appears as an EARLIER call of a history",
     )
 
@@ -1131,12 +1156,12 @@ def run(ctx):
     dt_items = [
         {"part": "dtype", "scan": list(sc), "det": list(d), "dtype": dt, "member": mb, "layout": lay}
         for sc, d, dt, lay in itertools.product(DT_SCANS, DT_DETS, DTYPES + DTYPES_REJECTED_ON_HEAD, LAYOUTS)
-        for mb in (["low"] if dt in ("bool",) + tuple(DTYPES_REJECTED_ON_HEAD) else ["low", "high"])
+        for mb in (["low"] if dt in ("bool",) + tuple(DTYPES_REJECTED_ON_HEAD) else ["low", "mid", "high"])
     ]
     mG = ctx.pmap(eval_dtype, dt_items, chunk=2, label="dtype x layout")
     accepted = {dt: int(mG.extra[f"dtype_{dt}_accepted"]) for dt in DTYPES + DTYPES_REJECTED_ON_HEAD}
     rejected = {dt: int(mG.extra[f"dtype_{dt}_rejected"]) for dt in DTYPES + DTYPES_REJECTED_ON_HEAD}
-    if sum(accepted[dt] for dt in DTYPES) < len(DTYPES) * 16:
+    if min(accepted[dt] for dt in DTYPES) < 16:
         raise Broken(f"dtype part degenerate: accepted configurations per dtype {accepted}")
     # call histories on freshly imported modules
     depth = 2 if ctx.quick else 3
@@ -1161,9 +1186,9 @@ def run(ctx):
             "fit_paths": ["ptycho_utils.fit_origin(mask=all true)", "CenterOfMassOriginModel.fit_origin_background", "preprocess(com_fit_function).com_fit", "calculate_origin + fit_origin_background"],
             "shift": "every integer origin of the detector x {uniform, per-pattern} x every batch size x {bilinear, nearest}",
             "input_dtypes": DTYPES + [f"{d} (rejected on HEAD: counted, not flagged)" for d in DTYPES_REJECTED_ON_HEAD],
-            "input_dtype_members": "integer counts exact in every dtype; 'low' (pattern totals < 1000) and 'high' (scaled per dtype: float16 totals exceed 65504, uint8 up to 240, uint16 up to 60000, int32/int64 up to 3e5 per pixel)",
+            "input_dtype_members": "integer counts exact in every dtype; 'low' (pattern totals < 1000), 'mid' (odd multiples, totals of several thousand: float16 no longer adds them exactly) and 'high' (scaled per dtype: float16 totals exceed 65504, uint8 up to 240, uint16 up to 60000, int32/int64 up to 3e5 per pixel)",
             "input_layouts": LAYOUTS,
-            "input_dtype_lattice": {"scans": [list(x) for x in DT_SCANS], "detectors": [list(x) for x in DT_DETS], "paths": "calculate_origin x every batch size, preprocess(vectorized=True/False).com_measured"},
+            "input_dtype_lattice": {"scans": [list(x) for x in DT_SCANS], "detectors": [list(x) for x in DT_DETS], "paths": "calculate_origin x every batch size, shift_origin_to x {None, 4} x {bilinear, nearest} vs np.roll, preprocess(vectorized=True/False).com_measured"},
             "detector_shapes_large_prime_factors": [list(d) for d in DETS_BIG],
             "shift_array": "every integer shift |r|<H, |c|<W x {Fourier, bilinear} on all detector shapes",
             "integer_origin_roll": {"scans": [list(x) for x in io_scans], "origins_x_fit": ["constant/constant", "constant/plane", "planar/plane"], "paths": ["calculate_origin+fit_origin_background+shift_origin_to", "preprocess(vectorized, bilinear).centered_amplitudes/centered_intensities"]},
